@@ -257,13 +257,14 @@ CompactRegister == /\ co.pc = "closed" /\ (SwapExcl => se.pc = "idle")
                    /\ segs' = Append(segs, co.sid) /\ sobj' = [sobj EXCEPT ![co.sid] = NoObj]
                    /\ co' = [co EXCEPT !.pc = "del", !.i = 1, !.k = 0]
                    /\ UNCHANGED <<removed, leaked, st, lock, T, mq, disk, ctr, fl, se, flushReq, compactReq, expect, durable, ever, lost, crashes>>
-\* per source: unlist, then remove its component files in the order hybrid, vector, text, metadata
-DelOrder == SelectSeq(<<"h", "v", "t", "m">>, LAMBDA c : c \in AllComps)
+\* per source: unlist, then visit its four component paths in the order hybrid, vector, text, metadata (deleteSegment
+\* visits all four whatever the configuration; removing a file that does not exist is not an error)
+DelOrder == <<"h", "v", "t", "m">>
 CompactUnlist == /\ co.pc = "del" /\ co.i <= Len(co.tgt) /\ co.k = 0
                  /\ segs' = SwapRemove(segs, co.tgt[co.i]) /\ co' = [co EXCEPT !.k = 1]
                  /\ UNCHANGED <<removed, leaked, sobj, st, lock, T, mq, disk, ctr, fl, se, flushReq, compactReq, expect, durable, ever, lost, crashes>>
 CompactDelFile == /\ co.pc = "del" /\ co.i <= Len(co.tgt) /\ co.k >= 1
-                  /\ disk' = [disk EXCEPT ![co.tgt[co.i]][DelOrder[co.k]] = None]
+                  /\ disk' = IF DelOrder[co.k] \in AllComps THEN [disk EXCEPT ![co.tgt[co.i]][DelOrder[co.k]] = None] ELSE disk
                   /\ co' = IF co.k < Len(DelOrder) THEN [co EXCEPT !.k = @ + 1] ELSE [co EXCEPT !.i = @ + 1, !.k = 0]
                   /\ UNCHANGED <<removed, leaked, sobj, st, lock, T, mq, segs, ctr, fl, se, flushReq, compactReq, expect, durable, ever, lost, crashes>>
 CompactEnd == /\ co.pc = "del" /\ co.i > Len(co.tgt) /\ co' = IdleCo
